@@ -35,6 +35,8 @@ type vrfStore struct {
 	boxes   map[string][]*vrfMsg
 	removed []string // ids passed to RemoveMessage, in order
 	rmBox   []string
+	// onRemove, when set, runs at the start of RemoveMessage (a place for a gate: a slow store)
+	onRemove func()
 }
 
 func (s *vrfStore) AddMessage(storage.Message) (string, error) { return "", nil }
@@ -51,6 +53,9 @@ func (s *vrfStore) GetMessages(mailbox string) ([]storage.Message, error) {
 func (s *vrfStore) MarkSeen(mailbox, id string) error    { return nil }
 func (s *vrfStore) PurgeMessages(mailbox string) error   { return nil }
 func (s *vrfStore) RemoveMessage(mailbox, id string) error {
+	if s.onRemove != nil {
+		s.onRemove()
+	}
 	s.removed = append(s.removed, id)
 	s.rmBox = append(s.rmBox, mailbox)
 	return nil
